@@ -114,7 +114,8 @@ var unknownLibKeys = [][2]string{{"spake_preauth_groups", "edwards25519"}, {"plu
 	{"pkinit_anchors", "FILE:/etc/pki/tls/certs/ca-bundle.crt"}, {"kdc", "evil.example.com"}, {"enforce_ok_as_delegate", "true"},
 	{"some_unknown_flag", "maybe"}, {"dns_uri_lookup", "off"}}
 
-var realmPool = []string{"EXAMPLE.COM", "TEST.GOKRB5", "ATHENA.MIT.EDU", "lowercase.org", "A", "AD.EXAMPLE.COM", "R-1.X", "X.Y.Z.W", "USER.GOKRB5", "Mixed.Case.Org"}
+var realmPool = []string{"EXAMPLE.COM", "TEST.GOKRB5", "ATHENA.MIT.EDU", "lowercase.org", "A", "AD.EXAMPLE.COM", "R-1.X", "X.Y.Z.W", "USER.GOKRB5", "Mixed.Case.Org",
+	"example.com", "Example.Com", "LOWERCASE.ORG", "MIXED.CASE.ORG", "a"} // realm names are case-sensitive: these are five further realms
 var hostPool = []string{"kerberos.example.com", "kerberos-1.example.com", "kdc1.test.gokrb5", "10.80.88.88", "127.0.0.1", "localhost", "kdc", "kerberos.mit.edu", "192.168.88.100", "a.b.c.d.e"}
 var unknownRealmKeys = [][2]string{{"auth_to_local", "DEFAULT"}, {"auth_to_local", "RULE:[1:$1]"}, {"auth_to_local", "RULE:[2:$1/$2@$0](.*/admin@EXAMPLE.COM)s/@.*//"},
 	{"pkinit_anchors", "FILE:/etc/ssl/ca.pem"}, {"primary_kdc", "kerberos.example.com"}, {"http_anchors", "DIR:/etc/ssl/certs"}, {"sssd_opt", "1"}, {"kdcs", "not.a.kdc"}}
@@ -706,6 +707,14 @@ func gridCases(seed uint64, layouts int) []Case {
 		r.Name = n
 		add(modelOf(baseLib, []kc.Realm{r, {Name: "OTHER.REALM"}}, nil))
 	}
+	// two realms whose names differ only in letter case, each with its own servers, in both orders
+	for _, pair := range [][2]string{{"EXAMPLE.COM", "example.com"}, {"Mixed.Case.Org", "MIXED.CASE.ORG"}, {"A", "a"}} {
+		r1, r2 := baseRealm(), baseRealm()
+		r1.Name, r2.Name = pair[0], pair[1]
+		r2.Items = []kc.RealmItem{{Kind: "kdc", Host: "kdc.of.the.other.spelling.test", Port: 1088}, {Kind: "kpasswd_server", Host: "kpw.of.the.other.spelling.test", Port: 1464}}
+		add(modelOf(baseLib, []kc.Realm{r1, r2}, nil))
+		add(modelOf(baseLib, []kc.Realm{r2, r1}, nil))
+	}
 
 	// nested blocks: at every position of a realm, depth 1 and 2, harmless and shadowing contents
 	blocks := [][]kc.Line{
@@ -942,6 +951,22 @@ func lookupGrid() []Case {
 						out = append(out, Case{Kind: "lookup", Model: m, Reps: 24})
 					}
 				}
+			}
+		}
+	}
+	// two realms whose names differ only in letter case, each with its own servers, in both orders, alone and as default realm
+	for _, pair := range [][2]string{{"EXAMPLE.COM", "example.com"}, {"Mixed.Case.Org", "MIXED.CASE.ORG"}, {"A", "a"}, {"corp.example", "Corp.Example"}} {
+		r1 := kc.Realm{Name: pair[0], Items: append(srvItems("kdc", hosts[:2], []int{88, 0}, -1), srvItems("kpasswd_server", []string{"kp1.example.com"}, []int{464}, -1)...)}
+		r2 := kc.Realm{Name: pair[1], Items: append(srvItems("kdc", []string{"kdc.of.the.other.spelling.test"}, []int{1088}, -1), srvItems("admin_server", []string{"adm.of.the.other.spelling.test"}, []int{0}, -1)...)}
+		for _, rs := range [][]kc.Realm{{r1, r2}, {r2, r1}, {r1, baseRealm2(), r2}} {
+			for _, def := range []string{pair[0], pair[1]} {
+				lib := append([]kc.LibEntry{}, baseLib...)
+				for i := range lib {
+					if lib[i].Key == "default_realm" {
+						lib[i] = strEntry("default_realm", def)
+					}
+				}
+				out = append(out, Case{Kind: "lookup", Model: modelOf(lib, rs, nil), Reps: 24})
 			}
 		}
 	}
